@@ -16,7 +16,7 @@ RULE = ('starting from valid strings (C04 grammar ASTs incl. multiplied nodes/br
         '3-level strings) ONE fault is injected at EVERY admissible position of each base string: (a) a ring marker (digit or '
         '%nn) opened on node i and never closed; (b) a ring bond duplicating an existing edge (chain neighbour, branch anchor, '
         'existing ring bond); (c) a node with an edge of order >= 1 renamed to a name without fragment; (d) an annotation '
-        'entry with two "="; (e) more positional values than the dialect has; (f) a non-numeric value (positional or keyword) '
+        'entry with two "="; (e) more positional values than the dialect has, written before, after or around a key=value entry; (f) a non-numeric value (positional or keyword) '
         'for a key that is reserved-numeric at that level - in base-graph nodes, coarse-fragment nodes and atomistic bracket '
         'atoms. Expected: SyntaxError for a-e, TypeError for f, raised by read_cgsmiles / from_string / resolve; anything '
         'else (a returned graph, another exception type) is a violation. evaluations = faulted strings executed; distinct = '
@@ -28,9 +28,9 @@ MECHANISMS = [('cgsmiles.read_cgsmiles', 'read_cgsmiles'), ('cgsmiles.dialects',
 EXHAUSTIVE = {'quick': False, 'thorough': False}
 SIZES = {'quick': 480, 'thorough': 12000}
 BAD = {
-    'base': {'d': ['w=a=b', 'q=1=2', 'k=v=w', '0;w=1=1'], 'e': ['0;1;2', '0;1;2;3', '1;1;1;k=v'],
+    'base': {'d': ['w=a=b', 'q=1=2', 'k=v=w', '0;w=1=1'], 'e': ['0;1;2', '0;1;2;3', '1;1;1;k=v', 'k=v;1;2;3', 'q=1;2;3;4', '1;k=v;2;3'],
              'f': ['q=abc', 'abc', '0;x1', 'w=1,5', 'w=', 'q=1e', 'q=0;w=one']},
-    'frag': {'d': ['w=a=b', 'x=R=S', 'k=v=w', '1;x=R=R'], 'e': ['1;R;2', '0.5;S;1;2', '1;R;S;k=v'],
+    'frag': {'d': ['w=a=b', 'x=R=S', 'k=v=w', '1;x=R=R'], 'e': ['1;R;2', '0.5;S;1;2', '1;R;S;k=v', 'k=v;0.5;R;8', 'x=R;0.5;7;8', '1;k=v;S;R'],
              'f': ['w=abc', 'abc', 'w=1.5.2', 'w=', 'abc;R', 'x=R;w=heavy']},
 }
 EXPECT = {'a': 'SyntaxError', 'b': 'SyntaxError', 'c': 'SyntaxError', 'd': 'SyntaxError', 'e': 'SyntaxError', 'f': 'TypeError'}
